@@ -205,6 +205,11 @@ class SuperSpeedStreamInEndpoint(Elaboratable):
         # to send an ERDY packet to have it resume polling.
         erdy_required = Signal()
 
+        # Stores whether the transaction packet generator has taken our ERDY request. The generator pulses
+        # ``done`` for every packet it completes, including the NRDY we may have requested just before;
+        # only a ``done`` that follows our accepted ERDY request tells us the ERDY has been sent.
+        erdy_in_flight = Signal()
+
         # Shortcut for when we need to deal with an in token.
         # Note that, for USB3, an IN token is an ACK that contains a non-zero ``number_of_packets``.
         is_to_us          = (handshakes_in.endpoint_number == self._endpoint_number)
@@ -272,9 +277,17 @@ class SuperSpeedStreamInEndpoint(Elaboratable):
                 # Send our ERDY token...
                 m.d.comb += handshakes_out.send_erdy.eq(1)
 
+                # ... which the generator takes once it is ready; until then it can still be busy with
+                # an earlier packet, such as our NRDY...
+                with m.If(handshakes_out.ready):
+                    m.d.ss += erdy_in_flight.eq(1)
+
                 # ... and once that send is complete, move on to waiting for an IN token.
-                with m.If(handshakes_out.done):
-                    m.d.ss += erdy_required.eq(0)
+                with m.If(handshakes_out.done & erdy_in_flight):
+                    m.d.ss += [
+                        erdy_required   .eq(0),
+                        erdy_in_flight  .eq(0)
+                    ]
                     m.next = "WAIT_TO_SEND"
 
 
